@@ -319,9 +319,9 @@ class HeaderPacketReceiver(Elaboratable):
         with m.If(self.acknowledge_power_state):
             m.d.ss += lpma_pending.eq(1)
 
-        # Keep track of the last value of the enable signal
-        last_enable = Signal()
-        m.d.ss     += last_enable.eq(self.enable)
+        # Our link is "down" whenever we're not enabled, or while we're being held in USB reset.
+        link_down = Signal()
+        m.d.comb += link_down.eq(~self.enable | self.usb_reset)
 
         #
         # Header Packet Buffers
@@ -355,8 +355,9 @@ class HeaderPacketReceiver(Elaboratable):
         # link command; so we don't receive packets out of order.
         ignore_packets = Signal()
 
-        # Create our raw packet parser / receiver.
-        m.submodules.receiver = rx = RawHeaderPacketReceiver()
+        # Create our raw packet parser / receiver. It starts afresh each time the link comes up; so a
+        # packet that was cut short when the link went down isn't completed with whatever follows.
+        m.submodules.receiver = rx = ResetInserter({"ss": link_down})(RawHeaderPacketReceiver())
         m.d.comb += [
             # Our receiver passively monitors the data received for header packets.
             rx.sink                   .tap(self.sink),
@@ -377,7 +378,7 @@ class HeaderPacketReceiver(Elaboratable):
 
 
         # If we receive a valid packet, it's time for us to buffer it!
-        with m.If(rx.new_packet & ~ignore_packets):
+        with m.If(rx.new_packet & ~ignore_packets & ~link_down):
             m.d.ss += [
                 # Load our header packet into the next write buffer...
                 buffers[write_pointer]    .eq(rx.packet),
@@ -397,7 +398,7 @@ class HeaderPacketReceiver(Elaboratable):
 
         # If we receive a bad packet, we'll need to request that the other side re-send.
         # The rules for this are summarized in [USB3.2r1: 7.2.4.1.5], and in comments below.
-        with m.If(rx.bad_packet & ~ignore_packets):
+        with m.If(rx.bad_packet & ~ignore_packets & ~link_down):
 
 
             m.d.ss += [
@@ -451,7 +452,8 @@ class HeaderPacketReceiver(Elaboratable):
         #
         # Link command generation.
         #
-        m.submodules.lc_generator = lc_generator = LinkCommandGenerator()
+        # (A link command that's in flight when the link goes down is abandoned; it would be stale afterwards.)
+        m.submodules.lc_generator = lc_generator = ResetInserter({"ss": link_down})(LinkCommandGenerator())
         m.d.comb += [
             self.source             .stream_eq(lc_generator.source),
             self.link_command_sent  .eq(lc_generator.done),
@@ -494,44 +496,6 @@ class HeaderPacketReceiver(Elaboratable):
                         m.next = "SEND_KEEPALIVE"
 
 
-
-                # Once we've become disabled, we'll want to prepare for our next enable.
-                # This means preparing for our advertisement, by:
-                with m.If((last_enable & ~self.enable) | self.usb_reset):
-                    m.d.ss += [
-                        # -Resetting our pending ACKs to 1, so we perform an sequence number advertisement
-                        #  when we're next enabled.
-                        acks_to_send          .eq(1),
-
-                        # -Decreasing our next sequence number; so we maintain a continuity of sequence numbers
-                        #  without counting the advertising one. This doesn't seem to be be strictly necessary
-                        #  per the spec; but seem to make analyzers happier, so we'll go with it.
-                        next_header_to_ack    .eq(next_header_to_ack - 1),
-
-                        # - Clearing all of our buffers.
-                        read_pointer          .eq(0),
-                        write_pointer         .eq(0),
-                        buffers_filled        .eq(0),
-
-                        # - Preparing to re-issue all of our buffer credits.
-                        next_credit_to_issue  .eq(0),
-                        credits_to_issue      .eq(self._buffer_count),
-
-                        # - Clear our pending events.
-                        lrty_pending          .eq(0),
-                        lbad_pending          .eq(0),
-                        keepalive_pending     .eq(0),
-                        ignore_packets        .eq(0)
-                    ]
-
-                    # If this is a USB Reset, also reset our sequences.
-                    with m.If(self.usb_reset):
-                        m.d.ss += [
-                            expected_sequence_number  .eq(0),
-                            next_header_to_ack        .eq(-1)
-                        ]
-
-
             # SEND_ACKS -- a valid header packet has been received, or we're advertising
             # our initial sequence number; send an LGOOD packet.
             with m.State("SEND_ACKS"):
@@ -553,6 +517,10 @@ class HeaderPacketReceiver(Elaboratable):
                     # If this was the last ACK we had to send, move back to our dispatch state.
                     with m.If(acks_to_send == 1):
                         m.next = "DISPATCH_COMMAND"
+
+                # If the link goes down, abandon what we were sending.
+                with m.If(link_down):
+                    m.next = "DISPATCH_COMMAND"
 
 
             # ISSUE_CREDITS -- header packet buffers have been freed; and we now need to notify the
@@ -576,6 +544,10 @@ class HeaderPacketReceiver(Elaboratable):
                     with m.If(credits_to_issue == 1):
                         m.next = "DISPATCH_COMMAND"
 
+                # If the link goes down, abandon what we were sending.
+                with m.If(link_down):
+                    m.next = "DISPATCH_COMMAND"
+
 
             # SEND_LBAD -- we've received a bad header packet; we'll need to let the other side know.
             with m.State("SEND_LBAD"):
@@ -590,6 +562,10 @@ class HeaderPacketReceiver(Elaboratable):
                     m.d.ss += lbad_pending.eq(0)
                     m.next = "DISPATCH_COMMAND"
 
+                # If the link goes down, abandon what we were sending.
+                with m.If(link_down):
+                    m.next = "DISPATCH_COMMAND"
+
 
             # SEND_LRTY -- our transmitter has requested that we send an retry indication to the other side.
             # We'll do our transmitter a favor and do so.
@@ -601,6 +577,10 @@ class HeaderPacketReceiver(Elaboratable):
 
                 with m.If(lc_generator.done):
                     m.d.ss += lrty_pending.eq(0)
+                    m.next = "DISPATCH_COMMAND"
+
+                # If the link goes down, abandon what we were sending.
+                with m.If(link_down):
                     m.next = "DISPATCH_COMMAND"
 
 
@@ -623,6 +603,10 @@ class HeaderPacketReceiver(Elaboratable):
                     m.d.ss += keepalive_pending.eq(0)
                     m.next = "DISPATCH_COMMAND"
 
+                # If the link goes down, abandon what we were sending.
+                with m.If(link_down):
+                    m.next = "DISPATCH_COMMAND"
+
 
             # SEND_LXU -- we're being instructed to reject a requested power-state transfer.
             # We'll send an LXU packet to inform the other side of the rejection.
@@ -635,5 +619,45 @@ class HeaderPacketReceiver(Elaboratable):
                 with m.If(lc_generator.done):
                     m.d.ss += lxu_pending.eq(0)
                     m.next = "DISPATCH_COMMAND"
+
+                # If the link goes down, abandon what we were sending.
+                with m.If(link_down):
+                    m.next = "DISPATCH_COMMAND"
+
+
+        # Whenever the link is down, we'll want to prepare for our next enable -- no matter which
+        # command we were sending when it went down. This means preparing for our advertisement, by:
+        with m.If(link_down):
+            m.d.ss += [
+                # -Resetting our pending ACKs to 1, so we perform an sequence number advertisement
+                #  when we're next enabled.
+                acks_to_send          .eq(1),
+
+                # -Advertising the last sequence number we've received; so we maintain a continuity
+                #  of sequence numbers without counting the advertising one.
+                next_header_to_ack    .eq(expected_sequence_number - 1),
+
+                # - Clearing all of our buffers.
+                read_pointer          .eq(0),
+                write_pointer         .eq(0),
+                buffers_filled        .eq(0),
+
+                # - Preparing to re-issue all of our buffer credits.
+                next_credit_to_issue  .eq(0),
+                credits_to_issue      .eq(self._buffer_count),
+
+                # - Clear our pending events.
+                lrty_pending          .eq(0),
+                lbad_pending          .eq(0),
+                keepalive_pending     .eq(0),
+                ignore_packets        .eq(0)
+            ]
+
+            # If this is a USB Reset, also reset our sequences.
+            with m.If(self.usb_reset):
+                m.d.ss += [
+                    expected_sequence_number  .eq(0),
+                    next_header_to_ack        .eq(-1)
+                ]
 
         return m
